@@ -209,7 +209,7 @@ func main() {
 			if th {
 				return 2500
 			}
-			return 110
+			return 80
 		},
 		Fixed: fixed(),
 	})
